@@ -549,7 +549,7 @@ func writeEvidence(vd, prop, tier string, seed int64, spec *checkSpec, results [
 			"harness": hr.Spec.Fn, "params": hr.Params, "paths": st.Paths, "paths_by_outcome": st.ByOutcome, "fork_decisions": st.Forks,
 			"solver_decided_forks": st.SymForks, "interpreted_instructions": st.Steps, "max_instructions_on_a_path": st.MaxSteps, "step_budget": budgetOf(hr),
 			"spurious_counterexamples": len(hr.Spurious),
-			"queries": st.Queries, "wall_s": round1(hr.Wall.Seconds()), "validated_natively": hr.Validated, "cover_labels": st.Covers, "violations": viols, "note": hr.Spec.Note,
+			"queries":                  st.Queries, "wall_s": round1(hr.Wall.Seconds()), "validated_natively": hr.Validated, "cover_labels": st.Covers, "violations": viols, "note": hr.Spec.Note,
 		})
 	}
 	// functions encoded: repository functions only, sorted by instruction count
